@@ -542,15 +542,21 @@ def compare(case, impl, model):
 
 
 def finding_of(case, impl, why, model=None):
-    """F17a / F17b only where every
-    divergence from the container's view lies at or below a followed link whose target is an absolute path that
-    is not clean (a) or a path through a symlinked directory (b)."""
+    """Known findings F17a / F17b, matched by their witness shape only:
+      a  a followed link whose target is an absolute path that is not path-cleaned (a component "", "." or "..");
+      b  a followed link whose target path passes through a symlinked directory (the container's resolution of the
+         target meets a symbolic link before its last component).
+    Successful copy: EVERY divergence from the container's view (secret bytes in the output, wrong / missing /
+    extra paths, a link that should have made the copy fail) must lie at or below the output path of such a link;
+    a divergence anywhere else keeps the case a VIOLATION. Failed copy (a whole-copy result that cannot be
+    localised): only the error classes these shapes produce (lstat: the host resolves the intermediate link in its
+    own namespace; notmounted: the uncleaned spelling matches no mount), and only where the implementation behaves
+    exactly as the model of the unfixed code predicts (when the model was run on the case)."""
     if not why:
         return None
     v = view_of(case)
     if v is None or not v.irregular:
         return None
-    kinds = {k for _, k in v.irregular}
     if impl.startswith("ok "):
         c = parse_case(case)
         files, dirs = parse_listing(impl.split(" ")[2])
@@ -558,14 +564,21 @@ def finding_of(case, impl, why, model=None):
         paths = [p for p, (_, md5) in files.items() if md5 in sh] + [p for p, _ in diff_view(v, files, dirs)] + \
                 [d for d, _ in v.bad] + list(v.cycles)
         if not paths:
-            return None
+            return None            # e.g. only the byte count differs: not one of the known shapes
         kinds = set()
         for p in paths:
             ks = {k for d, k in v.irregular if p[:len(d)] == d}
             if not ks:
                 return None
             kinds |= ks
-    elif not impl.startswith("err "):
+    elif impl.startswith("err "):
+        if model is not None:
+            if not compare(case, impl, model):
+                return None
+        elif impl not in ("err lstat", "err notmounted"):
+            return None
+        kinds = {k for _, k in v.irregular}
+    else:
         return None
     return "F17a" if "a" in kinds else "F17b"
 
